@@ -432,6 +432,63 @@ func (c *Ctx) connEffectsOf(fn *ssa.Function, seen map[*ssa.Function]*connEffect
 	return e
 }
 
+// mustMakeQueue: on every path from entry to a return fn stores a newly made
+// channel to the queue field fv (directly or in a callee that must).
+func (c *Ctx) mustMakeQueue(fn *ssa.Function, fv *types.Var, seen map[*ssa.Function]bool) bool {
+	if seen[fn] || !c.InModuleFn(fn) {
+		return false
+	}
+	seen[fn] = true
+	defer delete(seen, fn)
+	ok, _ := AllPathsFromEntryPass(fn, func(in ssa.Instruction) bool { return c.makesQueueAt(in, fv, seen) })
+	return ok
+}
+
+func (c *Ctx) makesQueueAt(in ssa.Instruction, fv *types.Var, seen map[*ssa.Function]bool) bool {
+	if s, ok := in.(*ssa.Store); ok {
+		if _, isMk := s.Val.(*ssa.MakeChan); isMk {
+			if f, _ := fieldOf(s.Addr); f == fv {
+				return true
+			}
+		}
+		return false
+	}
+	if cs, ok := in.(*ssa.Call); ok {
+		if callee := cs.Call.StaticCallee(); callee != nil && c.InModuleFn(callee) {
+			return c.mustMakeQueue(callee, fv, seen)
+		}
+	}
+	return false
+}
+
+// freshQueuesRule: every success return of the connect routine is preceded,
+// on every path, by the creation of a new inbound and a new outbound queue.
+func (c *Ctx) freshQueuesRule(rule string) {
+	r, a := c.R, c.A
+	cn := a.Connect
+	for _, q := range []struct {
+		fv   *types.Var
+		name string
+	}{{a.In, "inbound"}, {a.Out, "outbound"}} {
+		bad := ""
+		n := 0
+		reach := ReachFromEntry(cn, func(in ssa.Instruction) bool {
+			if c.makesQueueAt(in, q.fv, map[*ssa.Function]bool{}) {
+				n++
+				return true
+			}
+			return false
+		})
+		for in := range reach {
+			if rt, ok := in.(*ssa.Return); ok && len(rt.Results) == 1 && isNilConst(retVal(rt, 0)) {
+				bad = c.InstrPos(rt)
+			}
+		}
+		r.Add(rule, "fresh-queues:"+q.name, c.Pos(cn.Pos()), c.FuncKey(cn), "every success path makes a new "+q.name+" queue (on every path of the helper that does it)", bad == "" && n > 0,
+			"success return reachable without an unconditional make of the "+q.name+" queue: "+bad+" (a kept queue carries lines of the previous connection into the new one)")
+	}
+}
+
 func (c *Ctx) connectInertRule(rule string) {
 	r, a := c.R, c.A
 	cn := a.Connect
@@ -1143,7 +1200,6 @@ func runC07(c *Ctx) {
 	// ---- R4
 	seenE := map[*ssa.Function]*connEffects{}
 	cn := a.Connect
-	var fresh []ssa.Instruction
 	var wipe []ssa.Instruction
 	funcInstrs(cn, func(in ssa.Instruction) {
 		cs, ok := in.(ssa.CallInstruction)
@@ -1154,22 +1210,8 @@ func runC07(c *Ctx) {
 		if callee == nil || !c.InModuleFn(callee) {
 			return
 		}
-		e := c.connEffectsOf(callee, seenE)
-		if e.makesIn && e.makesOut {
-			fresh = append(fresh, in)
-		}
-		if e.wipes {
+		if e := c.connEffectsOf(callee, seenE); e.wipes {
 			wipe = append(wipe, in)
-		}
-	})
-	// direct stores in the routine itself
-	funcInstrs(cn, func(in ssa.Instruction) {
-		if s, ok := in.(*ssa.Store); ok {
-			if _, isMk := s.Val.(*ssa.MakeChan); isMk {
-				if fv, _ := fieldOf(s.Addr); fv == a.In || fv == a.Out {
-					fresh = append(fresh, in)
-				}
-			}
 		}
 	})
 	passNil := func(set []ssa.Instruction) (bool, string) {
@@ -1189,8 +1231,7 @@ func runC07(c *Ctx) {
 		}
 		return bad == "" && len(set) > 0, bad
 	}
-	ok4, bad4 := passNil(fresh)
-	r.Add("R4", "fresh-queues", c.Pos(cn.Pos()), c.FuncKey(cn), "every success path makes new inbound and outbound queues", ok4, "success return reachable without it: "+bad4)
+	c.freshQueuesRule("R4")
 	ok5, bad5 := passNil(wipe)
 	r.Add("R4", "tracker-wiped", c.Pos(cn.Pos()), c.FuncKey(cn), "every success path wipes the tracker (when tracking is enabled)", ok5, "success return reachable without it: "+bad5)
 	// wipe is conditional only on st != nil
